@@ -41,6 +41,9 @@ _COLK = ['str', 'int', 'auto', 'negint', 'hier2']
 _HIER_OK = ('label', 'labels', 'bools', 'iloc', 'null')
 
 
+TECHNIQUE = 'runtime monitoring: reference-model oracle for functional updates (addressed cells = value, every other cell / label / dtype unchanged, receiver snapshot unchanged, grow-only result and receiver independent)'
+
+
 def _tame_value(v):
     if isinstance(v, int) and not isinstance(v, bool) and abs(v) > 2 ** 31:
         return v % 97
